@@ -170,7 +170,7 @@ static void mul_elem()
 // double: comparison-only operations over all doubles (NaN excluded: a range bound is a number), stepping operations on a boundary pool
 static void double_ops()
 {
-    int op = vf_pick("!op", 12);
+    int op = vf_pick("!op", 18);
     double a = vf_double("a"), b = vf_double("b"), c = vf_double("c"), d = vf_double("d"), x = vf_double("x");
     vf_assume(a == a && b == b && c == c && d == d && x == x);
     vf_assume(a <= b); vf_assume(c <= d);
@@ -191,6 +191,18 @@ static void double_ops()
     case 9: vf_assert((r | c).contains(x) == ind(mn(a, c), mx(b, c), x), "d-union-elem"); break;
     case 10: vf_assert((r & c).contains(x) == (ind(a, b, x) && x == c), "d-intersection-elem"); break;
     case 11: vf_assert((r <= o) == !(a > d) && (r >= o) == !(b < c), "d-weak-order"); break;
+    // the element overloads and the named aliases
+    case 12: vf_assert((r == c) == (a == c && b == c), "d-eq-elem"); break;
+    case 13: vf_assert((r && c) == ind(a, b, c) && r.contains(c) == ind(a, b, c), "d-contains-elem"); break;
+    case 14: { range_t<double> u = r.unite(o), i = r.intersection(o), u2 = r; u2.add(o); range_t<double> i2 = r; i2.intersect(o);
+               vf_assert(u.contains(x) == ind(mn(a, c), mx(b, d), x) && u2.contains(x) == u.contains(x), "d-unite-add-aliases");
+               vf_assert(i.contains(x) == (ind(a, b, x) && ind(c, d, x)) && i2.contains(x) == i.contains(x), "d-intersection-aliases"); break; }
+    case 15: { range_t<double> u = r.unite(c), i = r.intersection(c), u2 = r; u2.add(c); range_t<double> i2 = r; i2.intersect(c);
+               vf_assert(u.contains(x) == ind(mn(a, c), mx(b, c), x) && u2.contains(x) == u.contains(x), "d-unite-add-elem-aliases");
+               vf_assert(i.contains(x) == (ind(a, b, x) && x == c) && i2.contains(x) == i.contains(x), "d-intersection-elem-aliases"); break; }
+    case 16: { range_t<double> lo = r, hi = r; lo.lower(c); hi.raise(c);
+               vf_assert(lo.contains(x) == ind(mn(a, c), b, x) && hi.contains(x) == ind(a, mx(b, c), x), "d-lower-raise"); break; }
+    case 17: vf_assert(!r.empty() && r.first() == a && r.last() == b && range_t<double>::make_empty().empty() && (r & o).empty() == !(mx(a, c) <= mn(b, d)), "d-empty-first-last"); break;
     }
     vf_reach("end");
 }
@@ -221,5 +233,5 @@ extern "C" void harness_range_mul_i16() { mul_range<int16_t>(); } /* vf: tier=th
 extern "C" void harness_range_mulelem_i16() { mul_elem<int16_t>(); } /* vf: tier=thorough bounds=all_int16_operands;8_sign_cases timeout_ms=300000 external=cvc5int */
 extern "C" void harness_range_mul_i32() { mul_range<int32_t>(); } /* vf: tier=thorough bounds=all_int32_operands;16_sign_cases timeout_ms=300000 external=cvc5int */
 extern "C" void harness_range_mulelem_i32() { mul_elem<int32_t>(); } /* vf: tier=thorough bounds=all_int32_operands;8_sign_cases timeout_ms=300000 external=cvc5int */
-extern "C" void harness_range_double() { double_ops(); }      /* vf: bounds=all_non-NaN_doubles;12_comparison_operations */
+extern "C" void harness_range_double() { double_ops(); }      /* vf: bounds=all_non-NaN_doubles;18_operations(comparisons,element_overloads,named_aliases) */
 extern "C" void harness_range_double_step() { double_step(); } /* vf: bounds=gt/lt:bound_and_probe_from_a_13-value_boundary_pool,interval_ends_from_5_values_(nexttoward_is_concrete) */
